@@ -619,6 +619,9 @@ class AI(object):
             return [((i,), st)]
         if k == 'CXXThisExpr':
             return [(None, st)]
+        if k == 'MemberExpr' and x.get('name') == '' and kids(x):
+            return self.lval(kids(x)[0], st, u) if not x.get('isArrow') else [
+                (pv.target if isinstance(pv, Ptr) else None, s) for (pv, s) in self.eval(kids(x)[0], st, u)]
         if k == 'MemberExpr':
             ks = kids(x)
             if not ks:
@@ -1489,6 +1492,21 @@ class AI(object):
         if k == 'CXXOperatorCallExpr' and c and c[0] == 'fn' and c[1].get('kind') == 'CXXMethodDecl':
             obj = args[0]
             args = args[1:]
+        if obj is not None and not self._const_member_call(e, c, u):
+            nxt = []
+            for s in cur:
+                me = peel(kids(e)[0], explicit=False) if k == 'CXXMemberCallExpr' else None
+                if me is not None and me.get('isArrow'):
+                    for (pv, s2) in self.eval(obj, s, u):
+                        if isinstance(pv, Ptr) and pv.target is not None:
+                            s2.havoc(pv.target)
+                        nxt.append(s2)
+                else:
+                    for (l, s2) in self.lval(obj, s, u):
+                        if l is not None:
+                            s2.havoc(l)
+                        nxt.append(s2)
+            cur = nxt
         for i, a in enumerate(args):
             nxt = []
             pt = ptypes[i] if i < len(ptypes) else ''
@@ -1505,6 +1523,20 @@ class AI(object):
                     nxt.append(s2)
             cur = nxt
         return [(self.top_of(dtype(e)), s) for s in cur]
+
+    def _const_member_call(self, e, c, u):
+        from .expr import _member_fn_type, _is_const_method
+        if e.get('kind') == 'CXXMemberCallExpr':
+            me = peel(kids(e)[0], explicit=False)
+            return _is_const_method(_member_fn_type(e, me))
+        if c and c[0] == 'fn':
+            return _is_const_method(qtype(c[1]))
+        return False
+
+    def m_c_str(self, e, c, args, st, u):
+        return [(Ptr('NN', ('chars', id(e)), I(0)), st)]
+
+    m_data = m_c_str
 
     def call_function(self, fkey, args, st, u, site, this_loc=None):
         """Abstract inlining.  Returns [(value, state)] or None when not analysable."""
@@ -1576,8 +1608,12 @@ class AI(object):
             if res is None:
                 return None
             for (v, s2) in res:
-                # restore caller's reference bindings
+                # restore caller's reference bindings; callee locals die here
                 s2.refs = dict(saved_refs)
+                for k_ in [k_ for k_ in s2.mem if k_[0] in ids]:
+                    del s2.mem[k_]
+                if s2.rel:
+                    s2.rel = {k_: v_ for k_, v_ in s2.rel.items() if k_[0][0] not in ids and k_[1][0] not in ids}
                 if isinstance(v, StructV):
                     tmp = ('tmp', id(site))
                     s2.copy_struct(v.loc, tmp)
